@@ -5,7 +5,10 @@ Parts
 -----
 post : one ``solve()`` per case (closed form, alternating minimisation,
        minimum leakage, max-SINR, MMSE; every initialisation mode) followed by
-       the post-conditions of the property statement.
+       the post-conditions of the property statement.  A third of the
+       iterative cases with noise and a user with >= 2 streams are driven by
+       the greedy stream-reduction wrapper (GreedStreamIASolver); the solution
+       it leaves in the wrapped solver is judged by the same post-conditions.
 mono : equal powers, no noise: the leaked interference power after each
        further iteration (public API: ``initialize_with='fix'``,
        ``max_iterations=1``, repeated ``solve``) never increases.
@@ -176,6 +179,11 @@ def _post_case(draw, tier):
         case["max_iter"] = draw(st.sampled_from(
             [1, 1, 2, 3, 5, 8, 13, 20, 30] if tier == "quick"
             else [1, 2, 3, 5, 8, 13, 20, 30, 60, 120]))
+        # the solver is driven by the greedy stream-reduction wrapper (the
+        # way the apps use it): the solution it leaves in the solver obeys
+        # the same relations
+        case["greedy"] = (cfg["noise"] is not None and max(Ns) >= 2 and
+                          draw(st.integers(0, 2)) == 0)
     return case
 
 
@@ -703,6 +711,20 @@ def _check_post(case, ctx):
             ch.init_from_channel_matrix(other, Nr_a, Nt_a, K)
             solver.solve(_ns_arg(case["ns_form"], Ns), p_arg)
             ch.init_from_channel_matrix(big_now, Nr_a, Nt_a, K)
+        if case.get("greedy"):
+            from pyphysim.ia.algorithms import GreedStreamIASolver
+            before = [int(n) for n in Ns]
+            GreedStreamIASolver(solver).solve(
+                _ns_arg(case["ns_form"], Ns), p_arg)
+            tags = dict(tags, greedy=True)
+            ctx.label("greedy_wrapper")
+            n_list = _postconditions(ctx, solver, cls, cfg, H, P_exp, tags)
+            if any(a > b for a, b in zip(n_list, before)) or min(n_list) < 1:
+                raise Violation("greedy_streams", "streams %r after greedy "
+                                "reduction from %r" % (n_list, before), tags)
+            ctx.label("greedy_reduced" if n_list != before
+                      else "greedy_kept_all")
+            return
         solver.solve(_ns_arg(case["ns_form"], Ns), p_arg)
         n_list = _postconditions(ctx, solver, cls, cfg, H, P_exp, tags)
         if n_list != Ns:
